@@ -173,7 +173,7 @@ def lock_rule(prog: Program, rep, RID: str):
 def multiplicity_guard(prog: Program, rep, RID: str):
     f = prog.own_method("AbstractWalkModelDiGraph", "_apply_safety_optimizations")
     # the multiplicity is the value of the Counter item the loop binds: the site is `multiplicity != 1` inside that loop
-    sites = [s for s in val.sites_in(f) if re.fullmatch(r"not \(EQ0\[-1 \+ L\d_\d\]\)", s["test"]) and "Counter(" in (s["loop"] or "")]
+    sites = [s for s in val.sites_in(f) if re.search(r"not \(EQ0\[-1 \+ L\d_\d\]\)", s["test"]) and "Counter(" in (s["loop"] or "")]
     key = "AbstractWalkModelDiGraph._apply_safety_optimizations:m!=1-guard"
     if not sites:
         rep.violation(RID, key, "a non-SCC edge of a safe sequence is fixed to 1 without the `m != 1 -> ValueError` test", f.loc())
@@ -196,13 +196,9 @@ def flow_safety_threshold(prog: Program, rep, RID: str):
     from sa.poly import to_poly
     from rules.common import local_single_defs, substitute_locals
     f = prog.function("flowpaths.utils.safetyflowdecomp", "compute_inexact_flow_decomp_safe_paths")
-    defs = local_single_defs(f.node)
-    # locals defined inside the loops are re-assigned per iteration but syntactically once: collect them too
-    for n in ast.walk(f.node):
-        if isinstance(n, ast.Assign) and len(n.targets) == 1 and isinstance(n.targets[0], ast.Name):
-            cnt = sum(1 for m in ast.walk(f.node) if isinstance(m, ast.Assign) and len(m.targets) == 1 and isinstance(m.targets[0], ast.Name) and m.targets[0].id == n.targets[0].id)
-            if cnt == 1 and n.targets[0].id != "inexact_excess":
-                defs.setdefault(n.targets[0].id, n.value)
+    from rules.common import all_local_defs
+    # locals defined inside the loops are re-assigned per iteration but syntactically once (augmented assignments count as re-binding)
+    defs = {k: v for k, v in all_local_defs(f.node).items() if k != "inexact_excess"}
     hits = []
     for w in [n for n in ast.walk(f.node) if isinstance(n, ast.While)]:
         for st in w.body:
